@@ -307,6 +307,74 @@ def dispatch_shape(ck, P, cfg):
             ck.decide(ok, R, "Crc32Fold::fold@" + cfg, "braid kernel reachable when the probe fails", "Crc32Fold::fold cannot reach the portable kernel", where(f))
 
 
+def adler_final_reduction(ck, P, R="FLOW/adler-final-reduction"):
+    """The portable Adler-32 helpers return `adler | (sum2 << 16)`.  Their callers hand in running sums that are not
+    reduced (adler32_len_64 calls adler32_len_16 after up to NMAX bytes), so the last definition of both halves before
+    the recombination has to be a full reduction `x % BASE` - one conditional subtraction is not enough."""
+    base = crcmath.adler_base()
+    n = 0
+    for fn in sorted(P.fns.values(), key=lambda f: f.path):
+        if not fn.path.startswith(Z + "adler32::generic::") or fn.is_promoted:
+            continue
+        # statements of the return block and of the straight-line blocks leading to it, in execution order
+        preds = fn.preds()
+        for rb, kind in fn.exits():
+            if kind != "return":
+                continue
+            chain = [rb]
+            cur = rb
+            for _ in range(12):
+                ps = [p for p, _l in preds.get(cur, []) if p in fn.live]
+                if len(ps) != 1 or len(fn.succ[ps[0]]) != 1:
+                    break
+                cur = ps[0]
+                chain.append(cur)
+            stmts = []
+            for b in reversed(chain):
+                for st in fn.blocks[b]["s"]:
+                    if st.get("k") == "assign" and not st["lhs"].get("p"):
+                        stmts.append(st)
+            # the recombination
+            comb = None
+            for i, st in enumerate(stmts):
+                rv = st["rv"]
+                if rv.get("k") == "bin" and rv.get("op") == "BitOr":
+                    comb = i
+            if comb is None:
+                continue
+
+            def source(op, upto):
+                """follow plain copies backwards to the variable that is read"""
+                l = op.get("l")
+                for st in reversed(stmts[:upto]):
+                    if st["lhs"]["l"] == l:
+                        rv = st["rv"]
+                        if rv.get("k") == "use" and rv["a"].get("k") in ("copy", "move") and not rv["a"].get("p"):
+                            l = rv["a"]["l"]
+                            continue
+                        return l, st
+                return l, None
+
+            rv = stmts[comb]["rv"]
+            halves = []
+            for op in (rv["a"], rv["b"]):
+                l, st = source(op, comb)
+                if st is not None and st["rv"].get("k") == "bin" and st["rv"].get("op") == "Shl":
+                    l, st = source(st["rv"]["a"], stmts.index(st))
+                halves.append((l, st))
+            n += 1
+            bad = []
+            for l, st in halves:
+                ok = st is not None and st["rv"].get("k") == "bin" and st["rv"].get("op") == "Rem" and st["rv"]["b"].get("val") == base
+                if not ok:
+                    bad.append(fn.local_name(l) or "_%s" % l)
+            ck.decide(not bad, R, fn.path.replace(Z, ""), "both halves are `% BASE` results when recombined",
+                      "%s recombines %s without a full reduction modulo %d as its last definition: callers pass unreduced running sums, so "
+                      "the half can stay >= BASE and the checksum is wrong (only on the portable kernel)" % (fn.path.replace(Z, ""), bad, base),
+                      where(fn))
+    ck.floor(R, n, 2)
+
+
 def crc_start_flow(ck, P, R="FLOW/crc-start"):
     """crc32(start, buf): the back-ends of Crc32Fold::fold do not agree on where the running value comes from - the
     PCLMULQDQ accumulator takes it from fold's argument, the portable / ACLE / LoongArch paths continue from the `value`
@@ -349,6 +417,7 @@ def run(ck):
     adler_consts(ck, P)
     adler_combine_proof(ck, P)
     crc_start_flow(ck, P)
+    adler_final_reduction(ck, P)
     k = adler_kernels(ck, P, "K1")
     ck.floor("ATOM/adler-stride:K1", k, 2)
     dispatch_shape(ck, P, "K1")
